@@ -26,11 +26,11 @@ from vf import xc15_topo as topo
 from vf.core import jhash
 
 ID = "C15"
-BUDGET = {"quick": 3000, "thorough": 80000}
+BUDGET = {"quick": 3000, "thorough": 60000}
 MIN_KEYS = 60
 REQUIRED = [
     "kind:quad", "kind:hex", "class:structured", "class:holes", "class:disk", "class:star", "class:star+ring",
-    "class:refined", "class:libdisk", "class:hex-full", "class:hex-partial",
+    "class:refined", "class:annulus", "class:libdisk", "class:hex-full", "class:hex-partial", "class:hex-extruded",
     "valence:3", "valence:5", "fix:by-index", "fix:by-position", "fix:none",
     "judged:boundary-unmoved", "judged:fixed-unmoved:by-index", "judged:fixed-unmoved:by-position",
     "judged:fixed-unmoved:by-position(within-1e-9)", "judged:decoy-position-fixes-nothing",
@@ -41,10 +41,10 @@ REQUIRED = [
 ]
 RULE = (
     "quad maps: structured n x m (n,m<=6), structured with removed cells, n x n core + 1-2 shell rings (3-valent "
-    "nodes), k-stars k=3,5,6 (+ ring, + refinement: 3-/5-/6-valent interior nodes), library disks (OneCore, FourCore, "
+    "nodes), closed rings of 3-8 x 2-4 quads, k-stars k=3,5,6 (+ ring, + refinement: 3-/5-/6-valent interior nodes), library disks (OneCore, FourCore, "
     "Wrapped, Half, Quarter, Oval); random node numbering, quad order, start corner, sense; random plane, shear, "
-    "origin, scale 0.1..100. hex: 2x2x2..3x3x3 lattices (full or with removed cells), every block renumbered by one "
-    "of 24 rotations, interior jitter at build time or by Vertex.move_to. fixed sets: none / by index / by position "
+    "origin, scale 0.1..100. hex: 2x2x2..3x3x3 lattices (full or with removed cells) and small quad maps extruded "
+    "into 2-3 layers (5-/7-valent interior nodes), every block renumbered by one of 24 rotations, interior jitter at build time or by Vertex.move_to. fixed sets: none / by index / by position "
     "(exact, within 1e-9, decoys) / mixed, split over 1-3 calls; 1-3 smooth() calls of 1..200 iterations. "
     "non-trivial: >=1 free interior node and >=1 boundary node; distinct by (kind, class, topology hash = multiset "
     "of (valence, boundary) + cell count, fixed pattern, stage pattern)"
@@ -88,7 +88,8 @@ def _embed(rng):
 
 
 def _quad_topology(rng):
-    cls = rng.choices(["structured", "holes", "disk", "star", "star+ring", "refined"], [34, 10, 16, 12, 14, 14])[0]
+    cls = rng.choices(["structured", "holes", "disk", "star", "star+ring", "refined", "annulus"],
+                      [32, 10, 15, 11, 13, 12, 7])[0]
     if cls == "structured":
         n, m = rng.randint(1, 6), rng.randint(1, 6)
         if rng.random() < 0.85:
@@ -98,6 +99,8 @@ def _quad_topology(rng):
         uv, quads = topo.with_holes(rng, rng.randint(3, 6), rng.randint(3, 6))
     elif cls == "disk":
         uv, quads = topo.disk(rng.randint(1, 3), rng.randint(1, 2))
+    elif cls == "annulus":
+        uv, quads = topo.annulus(rng.randint(3, 8), rng.randint(2, 4))
     elif cls == "star":
         uv, quads = topo.star(rng.choice([3, 5, 5, 6]), rng.randint(1, 3))
     elif cls == "star+ring":
@@ -157,7 +160,7 @@ def _fix_plan(rng, interior, boundary, nbrs, cells, regular):
             else:
                 call["as"] = rng.choice(["list", "ndarray", "list-of-arrays"])
                 call["near"] = [bool(rng.random() < 0.3) for _ in chunk]
-                call["decoys"] = rng.randint(0, 2) if not regular or True else 0
+                call["decoys"] = rng.randint(0, 2)
             calls.append(call)
     return mode, sorted(set(chosen)), calls
 
@@ -342,8 +345,67 @@ def gen_hex(rng):
     return case
 
 
+def gen_hex_extruded(rng):
+    """an unstructured hexahedral assembly: a small quad map extruded into 2-3 layers (3-/5-valent columns)"""
+    base = rng.choice(["disk", "star3+ring", "star5+ring", "annulus", "structured"])
+    if base == "disk":
+        uv, quads = topo.disk(1, 1)
+    elif base == "star3+ring":
+        uv, quads = topo.add_ring(*topo.star(3, 1), 1.6)
+    elif base == "star5+ring":
+        uv, quads = topo.add_ring(*topo.star(5, 1), 1.6)
+    elif base == "annulus":
+        uv, quads = topo.annulus(rng.randint(3, 5), 2)
+    else:
+        uv, quads = topo.structured(2, 2)
+    uv, quads, _ = topo.relabel(rng, uv, quads, False)
+    layers = rng.choice([2, 2, 3])
+    n2 = len(uv)
+    hexes = []
+    for lay in range(layers):
+        for q in quads:
+            ids = [lay * n2 + k for k in q] + [(lay + 1) * n2 + k for k in q]
+            hexes.append(hexconv.renumber(ids, hexconv.ROTATIONS[rng.randrange(24)]))
+    rng.shuffle(hexes)
+    nodes, nbrs, boundary = topo.analyse(hexes)
+    interior = [k for k in nodes if k not in boundary]
+    mode, fixed, calls = _fix_plan(rng, interior, boundary, nbrs, hexes, False)
+    frame = geom.orthonormal_frame(rng)
+    scale = 10 ** rng.uniform(-1, 2)
+    origin = np.array([rng.uniform(-3, 3) for _ in range(3)]) * scale * rng.choice([0, 1, 1])
+    h = rng.uniform(0.5, 1.2)
+    skew = np.array([rng.uniform(-0.2, 0.2), rng.uniform(-0.2, 0.2)]) * rng.choice([0, 1])
+    pts = np.zeros(((layers + 1) * n2, 3))
+    for lay in range(layers + 1):
+        for k in range(n2):
+            w = np.array(uv[k]) + skew * lay
+            pts[lay * n2 + k] = w[0] * frame[0] + w[1] * frame[1] + lay * h * frame[2]
+    medge = topo.min_edge_at(pts, nbrs)
+    base_pts = pts.copy()
+    for k in nodes:
+        base_pts[k] += np.array([rng.uniform(-1, 1) for _ in range(3)]) * 0.08 * medge[k]
+    jit = base_pts.copy()
+    amp = rng.choice([0.05, 0.2, 0.3])
+    for k in interior:
+        jit[k] += np.array([rng.uniform(-1, 1) for _ in range(3)]) * amp * medge[k]
+    variant = rng.choice(["build", "move_to"])
+    P0 = [_r(origin + scale * jit[k]) for k in nodes]
+    build = P0 if variant == "build" else [_r(origin + scale * base_pts[k]) if k in interior else P0[k] for k in nodes]
+    case = {"kind": "hex", "cls": "hex-extruded", "base": base, "layers": layers, "hexes": hexes, "positions": P0,
+            "build_positions": build, "variant": variant, "fixmode": mode,
+            "fix": _finish_calls(rng, calls, P0, hexes), "write": rng.random() < 0.35}
+    free = [k for k in interior if k not in fixed]
+    case["stages"] = _stages(rng, P0, nbrs, free, _ext(P0))
+    return case
+
+
 def gen_case(ctx):
-    return gen_hex(ctx.rng) if ctx.rng.random() < 0.3 else gen_quad(ctx.rng)
+    u = ctx.rng.random()
+    if u < 0.22:
+        return gen_hex(ctx.rng)
+    if u < 0.32:
+        return gen_hex_extruded(ctx.rng)
+    return gen_quad(ctx.rng)
 
 
 def fixed_cases(tier):
@@ -451,26 +513,27 @@ class Judge:
                 "independent" if indep else "coupled" if free else "no-free", stages]
 
     # ---- one judged observation ----------------------------------------------------------------
-    def judge(self, X, first_stage_one_iteration):
-        """X: positions per node after a smooth() call (public observation). -> False to stop judging this case"""
+    def judge(self, X, first_stage_one_iteration, occurrences=None):
+        """X: positions per node after a smooth() call (public observation); occurrences: every (node, position)
+        pair observed (a node of a sketch is stored once per face). -> False to stop judging this case"""
         ctx, kind, ext = self.ctx, self.kind, self.ext
         if not np.all(np.isfinite(X)):
             ctx.violation(f"non-finite-position:{kind}", f"{self.describe()}: positions after smoothing contain nan/inf")
             return False
         # unmoved ---------------------------------------------------------------------------------
-        for k in self.nodes:
+        for k, val in (occurrences if occurrences is not None else [(k, X[k]) for k in self.nodes]):
             if k in self.boundary:
                 ctx.count("judged:boundary-unmoved")
-                if not np.array_equal(X[k], self.P0[k]):
+                if not np.array_equal(val, self.P0[k]):
                     ctx.violation(f"boundary-point-moved:{kind}",
-                                  f"{self.describe()}: boundary node {k} moved {self.P0[k].tolist()} -> {X[k].tolist()}")
+                                  f"{self.describe()}: boundary node {k} moved {self.P0[k].tolist()} -> {np.array(val).tolist()}")
                     return False
             elif k in self.fixed_by:
                 how = self.fixed_by[k]
                 ctx.count(f"judged:fixed-unmoved:{how}")
-                if not np.array_equal(X[k], self.P0[k]):
+                if not np.array_equal(val, self.P0[k]):
                     ctx.violation(f"fixed-point-moved:{how}:{kind}",
-                                  f"{self.describe()}: node {k} fixed {how} moved {self.P0[k].tolist()} -> {X[k].tolist()}")
+                                  f"{self.describe()}: node {k} fixed {how} moved {self.P0[k].tolist()} -> {np.array(val).tolist()}")
                     return False
         if any(not np.array_equal(X[k], self.P0[k]) for k in self.free):
             ctx.count("moved:free-point")
@@ -680,7 +743,8 @@ def run_quad(ctx, case):
         if pos.shape != X.shape or not float(np.max(np.abs(pos - X))) <= agree:
             ctx.violation("positions-vs-faces:quad", f"{judge.describe()}: sketch.positions differs from the faces' points")
             return
-        if not judge.judge(X, si == 0 and k == 1):
+        occ = [(node, faces[i][c]) for i, q in enumerate(quads) for c, node in enumerate(q)]
+        if not judge.judge(X, si == 0 and k == 1, occ):
             return
 
 
